@@ -258,12 +258,53 @@ def _arr_of(t: ast.Subscript) -> ast.AST:
     return t.value.value if isinstance(t.value, ast.Subscript) else t.value
 
 
+NARROW_DTYPES = {'np.uint8', 'np.int8', 'np.uint16', 'np.int16', 'bool', 'np.bool_', "'uint8'",
+                 "'int8'", "'uint16'", "'int16'", "'bool'", 'np.ubyte', 'np.byte', 'np.short',
+                 'np.ushort', 'np.float16', "'float16'", 'np.half'}
+
+
+def _narrow_counters(rep, node: ast.FunctionDef, name: str, rule: str = 'C06.R4') -> None:
+    """whatever the counting loop looks like (per cell, per ray with fancy indexing,
+    `np.add.at`): an array that is incremented holds up to one count per ray of the fan -- the
+    origin cell lies on all (H+1)(W+1) of them -- so an 8/16-bit or boolean element type wraps
+    (silently, for numpy arrays) and the agent's own cell drops to a count of 0"""
+    arrays = {}
+    for n in ast.walk(node):
+        if isinstance(n, ast.Assign) and len(n.targets) == 1 and \
+                isinstance(n.targets[0], ast.Name) and isinstance(n.value, ast.Call) and \
+                src(n.value.func).split('.')[-1] in ('zeros', 'empty', 'full', 'ones',
+                                                     'zeros_like', 'array'):
+            dts = [src(k.value) for k in n.value.keywords if k.arg == 'dtype'] + \
+                [src(a) for a in n.value.args[1:2]]
+            narrow = [t for t in dts if t in NARROW_DTYPES]
+            if narrow:
+                arrays[n.targets[0].id] = (n.value, narrow)
+    for n in ast.walk(node):
+        arr = None
+        if isinstance(n, ast.AugAssign) and isinstance(n.op, ast.Add):
+            t = n.target
+            while isinstance(t, ast.Subscript):
+                t = t.value
+            arr = t.id if isinstance(t, ast.Name) else None
+        elif isinstance(n, ast.Call) and src(n.func) in ('np.add.at', 'numpy.add.at') and n.args \
+                and isinstance(n.args[0], ast.Name):
+            arr = n.args[0].id
+        if arr in arrays:
+            call, narrow = arrays.pop(arr)
+            rep.violation(rule, VIS, name, call.lineno, src(call),
+                          f'the ray counter `{unprefix_(arr)}` has element type {narrow}: it '
+                          f'cannot hold one count per ray of the fan (the count of the origin '
+                          f'cell wraps at 256 rays, e.g. a 15x15 view), so the agent\'s own cell '
+                          f'or a fully lit cell can be reported hidden')
+
+
 def check_ray_function(index, rep, f: Func) -> Optional[ast.For]:
     name = f.name
     gname = f.node.args.args[0].arg
     from ..inline import inlined_function
     node, inl = inlined_function(index, f)
     node = _opacity_tables_to_cells(node, gname)
+    _narrow_counters(rep, node, name)
     outer, inner = ray_loop(node)
     if outer is None:
         # rays counted some other way (vectorised, library call): not a verdict
